@@ -477,6 +477,16 @@ func checkTable(gc genCase, ob *observation) string {
 			return fmt.Sprintf("early exit at %d", e.K)
 		}
 	}
+	if len(rec.Nest.OK) != gc.N || len(rec.MNest.OK) != gc.N {
+		return "enumeration with nested calls: number of entries"
+	}
+	for _, nr := range []nestRec{rec.Nest, rec.MNest} {
+		for i, rk := range nr.LK {
+			if nr.LA[i] != rec.Val[rk-1] {
+				return fmt.Sprintf("nested Lookup of rank %d: %d, expected %d", rk, nr.LA[i], rec.Val[rk-1])
+			}
+		}
+	}
 	if rec.Mem {
 		if len(rec.VAllK) != gc.N || len(rec.VL) != len(rec.Val) {
 			return "in-memory value: number of entries"
@@ -642,6 +652,9 @@ func describe(ob *observation) string {
 		if i < len(rec.ML) && rec.ML[i] != want {
 			return fmt.Sprintf("; e.g. in-memory Lookup(%s) = %d, written %d (-1 = not found)", ob.Union[i], rec.ML[i], want)
 		}
+	}
+	if rec.Accepted && len(rec.Nest.OK) != len(rec.AllK) {
+		return fmt.Sprintf("; e.g. streaming All() yields %d of %d entries when its consumer calls Lookup / All on the same reader", len(rec.Nest.OK), len(rec.AllK))
 	}
 	for _, e := range rec.Exits {
 		if e.SP != 0 || e.MP != 0 {
